@@ -22,6 +22,9 @@ type Family struct {
 	// Classify runs in the parent and names the class of an abstract case
 	// without executing anything (needed when the child died).
 	Classify func(kind byte, body []byte) string
+	// Recorded: executions are not repeatable (goroutine schedules); a rejected
+	// trace is kept verbatim as the evidence instead of being regenerated.
+	Recorded bool
 }
 
 // Verdict is a child's answer for one request.
@@ -278,7 +281,11 @@ func (r *Run) ValidateTrace(fam string, col *Collector, o TLCOpts) {
 			}
 			evs, _ := json.Marshal(fp)
 			h := sha1.Sum(evs)
-			cj, _ := json.Marshal(map[string]any{"req": string(col.req[tid]), "events_sha1": fmt.Sprintf("%x", h[:8])})
+			cm := map[string]any{"req": string(col.req[tid]), "events_sha1": fmt.Sprintf("%x", h[:8])}
+			if Families[fam].Recorded {
+				cm["recorded_events"] = col.events[tid]
+			}
+			cj, _ := json.Marshal(cm)
 			r.Fail(Candidate{Family: fam, Class: col.class[tid], Sig: "trace-reject" + rejSuffix(lines, l) + rejReason(v),
 				Case:   cj,
 				Detail: fmt.Sprintf("the trace specification has no step for event %d of trace %d%s: %s", l, tid, why, det)})
@@ -323,14 +330,18 @@ func rejSuffix(lines [][]byte, l int) string {
 func Reproduce(c Candidate) (bool, string) {
 	var req string
 	var tr struct {
-		Req    string `json:"req"`
-		Events string `json:"events_sha1"`
+		Req      string            `json:"req"`
+		Events   string            `json:"events_sha1"`
+		Recorded []json.RawMessage `json:"recorded_events"`
 	}
 	if err := json.Unmarshal(c.Case, &req); err != nil {
 		if err := json.Unmarshal(c.Case, &tr); err != nil || tr.Events == "" {
 			return false, "unreadable candidate"
 		}
 		req = tr.Req
+		if len(tr.Recorded) > 0 {
+			return true, "trace recorded from the real execution (not repeatable); kept in the replay file"
+		}
 	}
 	var got *Result
 	p := NewPool(c.Family, 1, func(res Result) { got = &res })
@@ -368,3 +379,23 @@ var Checks = map[string]func(r *Run){}
 var CaseSuffix string
 
 func mustJSON(v any) []byte { b, _ := json.Marshal(v); return b }
+
+// SubmitCollect submits n seeded requests of the given kind ({"seed","tid"}) and
+// collects their events (if col is not nil).
+func SubmitCollect(r *Run, fam string, kind byte, n int, col *Collector) {
+	f := Families[fam]
+	pool := NewPool(fam, 0, func(res Result) {
+		if kind != 'B' && col != nil {
+			r.handle(f, res, col)
+			return
+		}
+		r.handle(f, res, col)
+	})
+	for tid := 1; tid <= n; tid++ {
+		pool.Submit([]byte(fmt.Sprintf(`%c{"seed":%d,"tid":%d}`, kind, r.Seed, tid)))
+	}
+	pool.Close()
+	r.mu.Lock()
+	r.Extra["crash_monitored"] = toInt(r.Extra["crash_monitored"]) + int(pool.Executed)
+	r.mu.Unlock()
+}
